@@ -61,7 +61,9 @@ NestForms == { <<"var", "IDfirst">>, <<"var", "IDfirst", "=", "IDx", "+", "INT1"
                <<"def", "IDslice", "{", "}">>, <<"def", "IDslice", "STR", "{", "IDlast", "=", "INT1", "}">>,
                <<"bind", "IDall", "->", "IDstruct">>, <<"bind", "IDall", ":", "INT1", "->", "IDstruct">>, <<"bind", "IDall", ":", "IDfirst", "->", "IDslice">>,
                <<"bind", "IDall", ":", "IDall", "->", "IDslice">>, <<"bind", "IDall", ":", "IDall", "->", "IDstruct">>, <<"bind", "IDall", "->", "IDx">>,
-               <<"bind", "IDall", ":", "IDlast", "->", "IDstruct", ";">>, <<"}">>, <<"{", "}">> }
+               <<"bind", "IDall", ":", "IDlast", "->", "IDstruct", ";">>, <<"}">>, <<"{", "}">>,
+               <<"IDx", "=", "INT1", ";">>, <<"IDx", "=", "INT1", ";", ";">>, <<"print", "INT1", ";", ";">>, <<"var", "IDfirst", ";", ";">>, <<";">>,
+               <<"def", "IDslice", "{", "}", ";", ";">>, <<"def", "IDslice", "{", "IDlast", "=", "INT1", ";", ";", "}">> }
 RECURSIVE WrapDef(_, _)
 WrapDef(b, d) == IF d = 0 THEN b ELSE <<"def", "IDx", "{">> \o WrapDef(b, d - 1) \o <<"}">>
 PickNest == /\ Scope = "nest" /\ phase = 0
@@ -85,9 +87,12 @@ BrokenDef == { <<"def", "{", "}">>, <<"def", "IDx", "INT1", "{", "}">> }
 \* variable name, a missing ')'): the diagnostic sits at the first token of the next line (or at the end of input) and the next
 \* statement is then parsed from its keyword as usual, so a broken one still gets a diagnostic of its own
 TailStop == { <<"var">>, <<"print", "(", "INT1">>, <<"eval", "(", "(", "INT2", ")">> }
+\* a block left open at the end of input (only as the last statement): the missing '}' is reported at the end of input, whatever
+\* was reported before
+OpenDef == { <<"def", "IDx", "{", "IDx", "=", "INT1">>, <<"def", "IDx", "STR", "{">> }
 Stmts == Good \cup BrokenVEP \cup BrokenDef \cup TailStop
-RecGrow == /\ Scope = "recover" /\ Len(lines) < MaxLen
-           /\ \E s \in Stmts : lines' = Append(lines, s)
+RecGrow == /\ Scope = "recover" /\ Len(lines) < MaxLen /\ (IF lines = <<>> THEN TRUE ELSE lines[Len(lines)] \notin OpenDef)
+           /\ \E s \in Stmts \cup OpenDef : lines' = Append(lines, s)
            /\ UNCHANGED <<ts, phase, must>>
 \* lines that must carry a diagnostic: every broken statement up to and including the first broken def
 \* minimum number of diagnostics per line, as a sequence indexed by line (one more line than statements: the end of input)
@@ -96,7 +101,7 @@ MustLines(ls, i, acc) ==
   IF i > Len(ls) THEN acc
   ELSE IF ls[i] \in BrokenDef THEN [acc EXCEPT ![i] = @ + 1]
   ELSE IF ls[i] \in BrokenVEP THEN MustLines(ls, i + 1, [acc EXCEPT ![i] = @ + 1])
-  ELSE IF ls[i] \in TailStop THEN MustLines(ls, i + 1, [acc EXCEPT ![i + 1] = @ + 1])
+  ELSE IF ls[i] \in TailStop \cup OpenDef THEN MustLines(ls, i + 1, [acc EXCEPT ![i + 1] = @ + 1])
   ELSE MustLines(ls, i + 1, acc)
 Zeros(n) == [i \in 1..n |-> 0]
 Next == GrowAll \/ GrowViable \/ Mutate \/ RecGrow \/ PickAsg \/ BindSel \/ GrowCmt \/ PickNest
